@@ -225,6 +225,20 @@ def _c04_deep_recursion(rec):
     return rec.get("kind") == "format_code_raised" and d.get("exc") == "RecursionError" and _max_expr_depth(rec.get("input")) > 150
 
 
+@classifier("tab-expansion-makes-invalid-input-valid")
+def _c04_tabs(rec):
+    """format_code expands tabs to 4 columns and squeezes blank lines before it asks whether the input is valid Python. CPython counts a tab to the next multiple
+    of 8, so a tab-indented line that is an 'unexpected indent' for Python (the input is invalid) can line up with a 4-space block after the expansion: the
+    normalised text is valid, and is then formatted like any module instead of being handed back."""
+    import textwrap
+
+    src = rec.get("input") or ""
+    if rec.get("kind") != "invalid_input_not_handed_back" or "\t" not in src or _parse(src) is not None:
+        return False
+    expanded = re.sub(r"\n\s*\n", "\n", src.expandtabs(4))
+    return _parse(expanded) is not None or _parse(textwrap.dedent(expanded)) is not None
+
+
 # ----------------------------------------------------------------------------------------- C11
 def _c11(rec, stages, feature):
     d = rec.get("detail") or {}
